@@ -21,6 +21,68 @@ EXPL = ("Bounded buckets: every append of an entry to a bucket is dominated by l
 FILES = ["cuckoo/cuckoo.py", "cuckoo/countingcuckoo.py"]
 
 
+def buckets_distinct_rule(prog, rep):
+    """every bucket is an object of its own: what is appended to the bucket table inside a loop is built inside that loop (or is a copy
+    made there) - never one list / array created before the loop, which every round would share, so that a later insertion into one
+    bucket shows up in all of them.  Likewise the table is not `[bucket] * n`."""
+    rep.rule("C15.buckets-distinct", "a bucket appended in a loop is created (or copied) in that round, never one object built before the loop; the table is not [bucket] * n", floor=1)
+    from ..own import TABLE
+    for ctx in CTXS:
+        K = prog.cls(ctx)
+        src_cache = {}
+        bad, seen = None, 0
+        for f in mro_methods(prog, ctx):
+            mod = f.module
+            if mod.relpath not in src_cache:
+                loops = {}
+                for n in _ast.walk(_ast.parse(prog.sources[mod.relpath])):
+                    if isinstance(n, (_ast.For, _ast.While, _ast.ListComp, _ast.GeneratorExp)):
+                        loops[(n.lineno, n.col_offset)] = (n.lineno, getattr(n, "end_lineno", n.lineno))
+                src_cache[mod.relpath] = loops
+            loops = src_cache[mod.relpath]
+            for p in paths(prog, ctx, f):
+                tables = {strip_epochs(e.value) for e in p.events if e.kind == "setfield" and e.name == TABLE} | {("f", SELF, TABLE, 0)}
+                for e in p.events:
+                    if e.kind == "setfield" and e.name == TABLE:
+                        v = strip_epochs(e.value)
+                        if v[0] == "nary" and v[1] == "*" and any(x[0] == "lst" and any(y[0] in ("newb", "lst") for y in x[1]) for x in v[2]):
+                            bad = bad or (f, e, "the table is one bucket object repeated (`[bucket] * n`)")
+                        if v[0] == "comp" and v[1] == "list" and v[2][0] in ("newb", "lst", "comp"):
+                            seen += 1  # [[] for _ in range(n)]: the element expression is evaluated per element, each bucket is its own object
+                    if not (e.kind == "call" and e.name == "append" and e.target is None and e.d.get("recv") is not None and e.args and e.loops):
+                        continue
+                    if strip_epochs(e.recv) not in tables:
+                        continue
+                    seen += 1
+                    lid = e.loops[-1]
+                    try:
+                        span = loops.get(tuple(int(x) for x in lid.rsplit("@", 1)[1].split(":")))
+                    except Exception:
+                        span = None
+                    if span is None:
+                        continue
+                    alts = [strip_epochs(e.args[0])]
+                    while alts:
+                        v = alts.pop()
+                        if v[0] == "phi":
+                            alts += [v[2], v[3]]
+                            continue
+                        if v[0] == "newb" and v[1] in ("array", "list", "dict", "set", "bytearray") and isinstance(v[2], str) and "@" in v[2]:
+                            try:
+                                ln = int(v[2].rsplit("@", 1)[1].split(":")[0])
+                            except Exception:
+                                continue
+                            same_fn = v[2].rsplit("@", 1)[0] == lid.rsplit("@", 1)[0]
+                            if same_fn and not (span[0] <= ln <= span[1]):
+                                bad = bad or (f, e, f"the {v[1]} built at line {ln}, before the loop, is appended in every round")
+        if bad:
+            f, e, why = bad
+            rep.bad("C15.buckets-distinct", f"{ctx}.{f.src_name}", "shared bucket object",
+                    f"{why}: all those buckets are one object, so a fingerprint inserted into one of them appears in every one (misplaced and stored many times over)", e.where())
+        elif seen:
+            rep.ok("C15.buckets-distinct", f"{ctx}: {seen} bucket append(s) in loops, each of an object built or copied in that round")
+
+
 def check(prog, rep, tier):
     rep.extra["explanation"] = EXPL
     rep.rule("C15.bounded-append", "an entry is appended to a bucket only under len(bucket) < bucket_size, or in a loader loop over range(bucket_size)", floor=2)
@@ -28,6 +90,7 @@ def check(prog, rep, tier):
     rep.rule("C15.no-duplicate", "insertion happens only on the not-present branch", floor=2)
     rep.rule("C15.no-zero-bin", "counting bins never carry count zero", floor=3)
     rep.rule("C15.capacity-writers", "capacity changes only by multiplication with the expansion rate (or on construction / load)", floor=2)
+    buckets_distinct_rule(prog, rep)
     rep.assume("tables loaded from files that the library did not write are outside the claim")
     bsz = ("f", SELF, "_bucket_size", 0)
     for ctx in CTXS:
@@ -381,10 +444,16 @@ def _in_range_loop(p, e, bsz) -> bool:
     return False
 
 
-from ..selftest import Mutant, del_stmt, insert_stmt, replace_expr, replace_stmt, swap_cmp
+from ..selftest import Mutant, del_stmt, insert_stmt, replace_expr, replace_stmt, seq, swap_cmp
 
 _CK, _CC = "cuckoo/cuckoo.py", "cuckoo/countingcuckoo.py"
 MUTANTS = [
+    Mutant("_setup_expand fills the new table with one list object built before the loop", "cuckoo/cuckoo.py", seq(
+        insert_stmt("CuckooFilter", "_setup_expand", "fresh = []", before="for _ in range(self.capacity)"),
+        replace_stmt("CuckooFilter", "_setup_expand", "self.buckets.append([])", "self.buckets.append(fresh)")), rule="C15.buckets-distinct"),
+    Mutant("_setup_expand appends a copy of a template list built before the loop (each bucket its own object)", "cuckoo/cuckoo.py", seq(
+        insert_stmt("CuckooFilter", "_setup_expand", "fresh = []", before="for _ in range(self.capacity)"),
+        replace_stmt("CuckooFilter", "_setup_expand", "self.buckets.append([])", "self.buckets.append(fresh[:])")), expect="silent"),
     Mutant("__insert_element < -> <=", _CK, swap_cmp("CuckooFilter", "__insert_element", _ast.Lt, _ast.LtE), rule="C15.bounded"),
     Mutant("counting __insert_element < -> <=", _CC, swap_cmp("CountingCuckooFilter", "__insert_element", _ast.Lt, _ast.LtE), rule="C15.bounded"),
     Mutant("eviction: idx = index_1 always", _CK, replace_stmt("CuckooFilter", "_insert_fingerprint", "idx = index_2 if idx == index_1 else index_1", "idx = index_1"), expect="silent"),
